@@ -2,12 +2,12 @@ package main
 
 // C04: "violate exactly one requirement, re-sign everything with the attacker's own attestation key".
 var formatRequirementDevs = map[string][]string{
-	"packed-x5c":        {"x5c.v1", "x5c.isCA", "x5c.noC", "x5c.noO", "x5c.badOU", "x5c.noCN", "x5c.emptyC", "x5c.emptyO", "x5c.emptyCN", "x5c.aaguidMismatch", "x5c.aaguidCritical", "x5c.aaguidMalformed", "x5c.aaguidShortZeroPadded", "x5c.empty", "x5c.leafSecond"},
-	"packed-self":       {"self.algMismatch", "sig.otherKey"},
+	"packed-x5c":        {"x5c.v1", "x5c.isCA", "x5c.noC", "x5c.noO", "x5c.badOU", "x5c.noCN", "x5c.emptyC", "x5c.emptyO", "x5c.emptyCN", "x5c.aaguidMismatch", "x5c.aaguidCritical", "x5c.aaguidMalformed", "x5c.aaguidShortZeroPadded", "x5c.empty", "x5c.leafSecond", "alg.uint64Wrapped"},
+	"packed-self":       {"self.algMismatch", "alg.uint64Wrapped", "sig.otherKey"},
 	"fido-u2f":          {"u2f.twoCerts", "u2f.emptyX5cEntries", "u2f.noCerts", "u2f.certP384", "u2f.certRSA", "u2f.credNotEC2"},
-	"tpm":               {"tpm.badMagic", "tpm.badType", "tpm.wrongName", "tpm.nameAlgMismatch", "tpm.nameAlgForeignSameSize", "x5c.leafSecond", "tpm.nameHandle", "tpm.nameEmpty", "tpm.pubAreaOtherKey", "tpm.v1", "tpm.isCA", "tpm.noEKU", "tpm.ekuAnyOnly", "tpm.noSAN", "tpm.sanUnknownVendor", "tpm.sanNoModel", "tpm.sanNoVersion", "tpm.sanNoManufacturer", "tpm.extraDataOther", "tpm.extraDataShort", "tpm.noCerts"},
-	"android-key":       {"ak.certKeyOther", "ak.allAppsSW", "ak.allAppsTEE", "ak.noSign", "ak.originOther", "ak.challengeOther", "ak.challengeShort", "ak.noExtension", "x5c.leafSecond"},
-	"apple":             {"apple.certKeyOther", "apple.nonceOther", "apple.nonceShort", "apple.noNonce", "x5c.leafSecond"},
+	"tpm":               {"tpm.badMagic", "tpm.badType", "tpm.wrongName", "tpm.nameAlgMismatch", "tpm.nameAlgForeignSameSize", "x5c.leafSecond", "tpm.nameHandle", "tpm.nameEmpty", "tpm.pubAreaOtherKey", "tpm.v1", "tpm.isCA", "tpm.noEKU", "tpm.ekuAnyOnly", "tpm.noSAN", "tpm.sanUnknownVendor", "tpm.sanNoModel", "tpm.sanNoVersion", "tpm.sanNoManufacturer", "tpm.extraDataOther", "tpm.extraDataShort", "tpm.noCerts", "key.rsaExponentAliased", "alg.uint64Wrapped"},
+	"android-key":       {"ak.certKeyOther", "ak.allAppsSW", "ak.allAppsTEE", "ak.noSign", "ak.originOther", "ak.challengeOther", "ak.challengeShort", "ak.noExtension", "x5c.leafSecond", "key.rsaExponentAliased", "alg.uint64Wrapped"},
+	"apple":             {"apple.certKeyOther", "apple.nonceOther", "apple.nonceShort", "apple.noNonce", "x5c.leafSecond", "key.rsaExponentAliased"},
 	"android-safetynet": {"sn.wrongHost", "sn.untrustedChain", "sn.nonceOther", "sn.nonceShort", "sn.noX5c", "sn.nonceNotBase64", "sn.leafSecond", "sn.critUnknown", "sn.payloadAltered", "sn.unsigned"},
 }
 
